@@ -1,6 +1,12 @@
 //! One monitor per property; dispatch by property id.
+pub mod c09;
+pub mod c14;
+pub mod c15;
 pub mod rules;
 pub mod rules_driver;
+pub mod search;
+pub mod searchlib;
+pub mod timed;
 
 use crate::ev::Tier;
 
@@ -8,8 +14,18 @@ pub fn run_check(prop: &str, tier: Tier, seed: u64) -> i32 {
     if let Some(p) = rules::Prop::parse(prop) {
         return rules_driver::run(p, tier, seed);
     }
-    println!("INCONCLUSIVE unknown property {}", prop);
-    2
+    match prop {
+        "C07" => search::run_c07(tier, seed),
+        "C09" => c09::run(tier, seed),
+        "C12" => search::run_c12(tier, seed),
+        "C14" => c14::run(tier, seed),
+        "C15" => c15::run(tier, seed),
+        "C18" => search::run_c18(tier, seed),
+        _ => {
+            println!("INCONCLUSIVE unknown property {}", prop);
+            2
+        }
+    }
 }
 
 pub fn run_replay(prop: &str, path: &str) -> i32 {
